@@ -108,7 +108,7 @@ fn worker(args: &[String]) -> i32 {
         outcomes.insert(out.outcome_hash);
         if out.nontrivial {
             nontrivial += 1;
-            keys.insert(vsim::rng::mix(&[shape, ctx.sched_hash, fault]));
+            keys.insert(out.distinct_key.unwrap_or_else(|| vsim::rng::mix(&[shape, ctx.sched_hash, fault])));
             if samples.len() < 3 {
                 samples.push(json!({"case_index": index, "case_seed": cs, "case": out.sample}));
             }
